@@ -599,7 +599,8 @@ def cmd_sbatch(st, argv, stdin, cwd):
         for t in dep["terms"]:
             for i in t["ids"]:
                 j = st["jobs"].get(i)
-                if j is None or j["sched"] != "slurm":
+                if j is None or j["sched"] != "slurm" or j.get("purged"):
+                    # unknown to the controller (never existed, or purged after MinJobAge) - whatever accounting says
                     return Reply(err="sbatch: error: Batch job submission failed: Job dependency problem\n", rc=1), None
     name = merged.get("job-name", "sbatch")
     job = new_job(st, "slurm", name, stdin, argv, cwd, dep, dep_raw, {"opts": dirs + opts, "multi": multi})
@@ -1055,6 +1056,10 @@ def main():
             rep = Reply(rc=1)
         elif kind == "exit1":
             rep = Reply(err="%s: Socket timed out on send/recv operation\n" % cmd, rc=1)
+        elif kind == "exit1_silent":
+            rep = Reply(rc=1)  # fails without a word (killed by a signal, complaint written elsewhere)
+        elif kind == "exit1_stdout":
+            rep = Reply(out="%s: denied: request refused (injected)\n" % cmd, rc=1)  # complaint on stdout, like qdel
         elif kind == "stderr_error":
             rep = Reply(err="%s: error: Unable to contact controller (injected)\n" % cmd, rc=0)
         elif kind == "garbage":
